@@ -1005,7 +1005,10 @@ class Tifa(TifaCore, ast.NodeVisitor):
 
     def visit_Constant(self, node) -> Type:
         """ Handle new 3.8's Constant node """
-        return get_pedal_type_from_value(node.value, self.evaluate_type)
+        # No evaluator is handed over: evaluate_type takes nodes, not the
+        # names of classes, and a bytes or Ellipsis constant (``...`` as a
+        # placeholder body) simply has a type TIFA does not know.
+        return get_pedal_type_from_value(node.value)
 
     def visit_Return(self, node):
         """
